@@ -253,6 +253,10 @@ func (x *Exec) libCall(s *State, site ssa.Instruction, fn *ssa.Function, name st
 			after := Substr(str, Add(idx, StrLen(sep)), Sub(StrLen(str), Add(idx, StrLen(sep))))
 			s.assume(Implies(And(sepNonEmpty, StrContains(str, sep), Not(StrContains(after, sep))), And(Eq(res.Len, Int(2)), Eq(Select(arr, Int(1)), after))))
 		}
+		if sep.Op == "str" && sep.Str == " " && name == "strings.Split" {
+			// Join(Split(s, " "), " ") == s
+			s.assume(Eq(x.joinSpTerm(s, res, 3), str))
+		}
 		k(s, res)
 		return true
 	case "strings.Fields":
@@ -268,6 +272,9 @@ func (x *Exec) libCall(s *State, site ssa.Instruction, fn *ssa.Function, name st
 		sv, _ := args[0].(*SliceV)
 		sep := T(1)
 		r := x.freshStr(s, site, "join")
+		if sv != nil && sep.Op == "str" && sep.Str == " " {
+			s.assume(Eq(r, x.joinSpTerm(s, sv, 3)))
+		}
 		if sv != nil {
 			if sv.Obj != nil {
 				av := x.E.objVal(s, sv.Obj).(*ArrV)
@@ -508,9 +515,9 @@ func (x *Exec) libCall(s *State, site ssa.Instruction, fn *ssa.Function, name st
 	case "(*encoding/base64.Encoding).DecodeString":
 		x.used(name)
 		e := x.freshErr(s, site, "b64.err")
-		ok := UF("b64valid", SBool, T(1))
+		ok := UF("ufb_b64valid", SBool, T(1))
 		s.assume(Eq(e.Nil, ok))
-		dec := UF("b64decode", SString, T(1))
+		dec := UF("ufs_b64decode", SString, T(1))
 		o := x.E.storeObject(x.siteTag(site)+":b64", types.NewArray(types.Typ[types.Byte], 0), false, "arr")
 		s.heap[o.id] = &ArrV{Elem: types.Typ[types.Byte], IsStr: true, T: dec}
 		k(s, &TupleV{E: []Val{&SliceV{Nil: TFalse, Obj: o, Off: Int(0), Len: StrLen(dec), Cap: StrLen(dec), Elem: types.Typ[types.Byte]}, e}})
@@ -523,10 +530,10 @@ func (x *Exec) libCall(s *State, site ssa.Instruction, fn *ssa.Function, name st
 		} else {
 			src = x.freshStr(s, site, "src")
 		}
-		enc := UF("b64encode", SString, src)
+		enc := UF("ufs_b64encode", SString, src)
 		// decode∘encode = id; the alphabet contains neither ' ' nor ';'
-		s.assume(UF("b64valid", SBool, enc))
-		s.assume(Eq(UF("b64decode", SString, enc), src))
+		s.assume(UF("ufb_b64valid", SBool, enc))
+		s.assume(Eq(UF("ufs_b64decode", SString, enc), src))
 		s.assume(Not(StrContains(enc, Str(" "))))
 		s.assume(Not(StrContains(enc, Str(";"))))
 		k(s, enc)
@@ -633,7 +640,7 @@ func (x *Exec) libCall(s *State, site ssa.Instruction, fn *ssa.Function, name st
 		x.used(name)
 		pat := T(0)
 		e := x.freshErr(s, site, "re.err")
-		s.assume(Eq(e.Nil, UF("re_valid", SBool, pat)))
+		s.assume(Eq(e.Nil, UF("ufb_re_valid", SBool, pat)))
 		o := x.E.newObject(x.siteTag(site)+":regexp", fn.Signature.Results().At(0).Type().(*types.Pointer).Elem())
 		s.heap[o.id] = &AbsV{Typ: o.typ, F: map[string]Val{"pattern": pat}}
 		k(s, &TupleV{E: []Val{&PtrV{Nil: Not(e.Nil), Obj: o, Elem: o.typ}, e}})
